@@ -1,7 +1,7 @@
 ---------------------------- MODULE RngConcTrace ----------------------------
 (* Validation of lock events observed on the real library (forced schedules  *)
 (* generated from RngConc.tla, and free-running stress) -- see RngConc.tla.  *)
-EXTENDS RngCalls, Sequences, FiniteSets, TLC, Json, IOUtils
+EXTENDS RngCalls, Sequences, FiniteSets, TLC
 
 (***************************************************************************)
 (* check mode: observed lock events                                        *)
@@ -27,7 +27,8 @@ TNext ==
                     /\ held' = o.t /\ lastseq' = o.seq /\ acqs' = Append(acqs, o.t)
                     /\ IF held # 0 THEN Flag("two threads inside the RNG lock")
                        ELSE IF o.seq <= lastseq THEN Flag("lock sequence number not increasing")
-                       ELSE IF o.sect > Sections(o.call) THEN Flag("a call took more lock sections than specified")
+                       \* (structure, not property: reported as drift by the driver)
+                       ELSE IF o.sect > Sections(o.call) THEN Flag("DRIFT: a call took more lock sections than when it runs alone")
                        ELSE UNCHANGED bad
                     /\ UNCHANGED <<prog, want, runs>>
                [] o.k = "ev" /\ o.ev = "rel" ->
@@ -41,7 +42,7 @@ TNext ==
                     /\ IF o.hang THEN Flag("a call did not return")
                        ELSE IF ~o.ok THEN Flag("a call returned something else than it returns alone")
                        ELSE IF o.fresh_distinct # o.fresh_total THEN Flag("values drawn by concurrent calls collide")
-                       ELSE IF want # <<>> /\ acqs # want THEN Flag("the specified schedule could not be realised")
+                       ELSE IF want # <<>> /\ acqs # want THEN Flag("DRIFT: the enumerated schedule could not be realised on the real threads")
                        ELSE IF held # 0 THEN Flag("lock still held at the end")
                        ELSE UNCHANGED bad
                     /\ UNCHANGED <<held, lastseq, acqs, prog, want, runs>>
